@@ -617,13 +617,18 @@ class Union(Structure, metaclass=UnionMetaType):
         object.__setattr__(self, "_sizes", sizes)
 
     def _proxify(self) -> None:
-        def _proxy_structure(value: Structure) -> None:
-            for field in value.__class__.__fields__:
+        def _proxy_structure(value: Structure, member: str | None = None) -> None:
+            # The structures of a nested union are wrapped in a proxy of that union already, look through it
+            target = value.__target__ if isinstance(value, UnionProxy) else value
+            for field in target.__class__.__fields__:
                 if issubclass(field.type, Structure):
-                    nested_value = getattr(value, field._name)
-                    proxy = UnionProxy(self, field._name, nested_value)
-                    object.__setattr__(value, field._name, proxy)
-                    _proxy_structure(nested_value)
+                    nested_value = getattr(target, field._name)
+                    if isinstance(nested_value, UnionProxy) and nested_value.__union__ is self:
+                        nested_value = nested_value.__target__
+                    # A change at any depth rebuilds this union from the member the nested structure belongs to
+                    proxy = UnionProxy(self, member or field._name, nested_value)
+                    object.__setattr__(target, field._name, proxy)
+                    _proxy_structure(nested_value, member or field._name)
 
         _proxy_structure(self)
 
